@@ -192,4 +192,31 @@ func init() {
 			},
 		)
 	}}
+
+	// version 2 configuration: lookups run concurrently under the block relay's READ lock (and on the
+	// registration round's snapshot without any lock), so the configuration object must not be written
+	scenarios["v2-proposerconfig"] = scenario{"blockrelay_v2", func(t *testing.T) {
+		doc := `{"version":2,"fee_recipient":"0x0200000000000000000000000000000000000000",
+                 "relays":{"https://relay1.example.com/":{"public_key":"0xac6e77dfe25ecd6110b8e780608cce0dab71fdd5ebea22a16c0205200f2f8e2e3ad3b71d3499c54ad14d6c21b41a37ae"}},
+                 "proposers":[{"proposer":"0xaaaaaaaaaaaaaaaaaaaaaaaaaaaaaaaaaaaaaaaaaaaaaaaaaaaaaaaaaaaaaaaaaaaaaaaaaaaaaaaaaaaaaaaaaaaaaaaa","fee_recipient":"0x0300000000000000000000000000000000000000",
+                               "relays":{"https://relay2.example.com/":{}}},
+                              {"proposer":"^Wallet/Account [0-9]+$","fee_recipient":"0x0400000000000000000000000000000000000000","reset_relays":true}]}`
+		c, err := blockrelay.UnmarshalJSON([]byte(doc))
+		if err != nil {
+			t.Fatalf("unmarshal: %v", err)
+		}
+		var cfg blockrelay.ExecutionConfigurator = c
+		var k phase0.BLSPubKey
+		for i := range k {
+			k[i] = 0xaa
+		}
+		hammer(4, 100,
+			func(i int) {
+				_, _ = cfg.ProposerConfig(context.Background(), nil, phase0.BLSPubKey{byte(i)}, bellatrix.ExecutionAddress{1}, 30000000)
+			},
+			func(i int) {
+				_, _ = cfg.ProposerConfig(context.Background(), nil, k, bellatrix.ExecutionAddress{1}, 30000000)
+			},
+		)
+	}}
 }
